@@ -56,6 +56,20 @@ def run(rep, work, rng, tier):
         cc = filegen.make_content(rng, dict(first=first, nframes=1, npoints=1, nchan=0, dense_ids=True)); cc['gap'] = gap
         open(os.path.join(shared, 'hw%d.c3d' % i), 'wb').write(c3dspec.encode(L, cc))
         fcases.append(('hw%d' % i, ['loadx 0 hw%d.c3d' % i, 'snap 0', 'save 0 hw%d_2.c3d' % i, 'fsum hw%d_2.c3d' % i, 'load 1 hw%d_2.c3d' % i, 'snap 1']))
+    # patterns in the parameters that carry a MEANING for other programs (POINT:SCALE of either sign, denormal, infinite, NaN;
+    # ANALOG:OFFSET with the top bit set under ANALOG:FORMAT SIGNED / UNSIGNED / absent; GEN_SCALE): for this library they are
+    # numbers like any other — decoded as the bytes spell, re-encoded to the same bytes
+    k = 0
+    for ps in ('bf800000', '3f800000', '3c23d70a', 'bc23d70a', '00000001', '80000001', '7f800000', 'ff800000', '7fc00000', 'ffc00001', '00000000', '80000000'):
+        for fm in (None, b'SIGNED', b'UNSIGNED'):
+            if tier == 'quick' and k % 2 == 1 and fm is None: k += 1; continue
+            cc = filegen.make_content(rng, dict(npoints=2, nchan=4, nsub=2, nframes=1, dense_ids=True, nlabels=2, nalabels=4, first=1, point_scale=ps, analog_format=fm, empty_analog=False))
+            offs = [-32768, -1, 32767, rng.choice([-2, -2048, -32767, 1])]
+            cc['records'] = [(r[:7] + (offs,)) if (r[0] == 'P' and r[2] == b'OFFSET') else r for r in cc['records']]
+            contents['np%d' % k] = cc
+            open(os.path.join(shared, 'np%d.c3d' % k), 'wb').write(c3dspec.encode(L, cc))
+            fcases.append(('np%d' % k, ['loadx 0 np%d.c3d' % k, 'snap 0', 'save 0 np%d_2.c3d' % k, 'fsum np%d_2.c3d' % k, 'load 1 np%d_2.c3d' % k, 'snap 1', 'save 1 np%d_3.c3d' % k, 'fsum np%d_3.c3d' % k]))
+            k += 1
     (fc, fcown), (fm, _), fnd = common.correspondence(rep, work, fcases, label='every pattern through load, save, reload', shared=shared)
     fbad = 0
     for cid, lines in fcases:
@@ -64,7 +78,7 @@ def run(rep, work, rng, tier):
         if len(snaps) < 2:
             fbad += 1; rep.violation('oracle', 'the pattern file was not loaded / reloaded (%s)' % cs, script=lines, signature='pattern-file'); continue
         s0 = harness.Snap(snaps[0]); s1 = harness.Snap(snaps[1])
-        if cid.startswith('patterns'):
+        if cid.startswith('patterns') or cid.startswith('np'):
             d = filegen.diff_dump(s0, filegen.expected_dump(L, contents[cid]))
             if d:
                 fbad += 1; rep.violation('oracle', 'a pattern is not decoded as the bytes spell: %s' % d[0][:300], script=lines, signature='pattern-decode')
@@ -73,9 +87,9 @@ def run(rep, work, rng, tier):
         if d2:
             fbad += 1; rep.violation('oracle', 'a pattern changed between load and save: %s' % d2[0][:300], script=lines, signature='pattern-reencode')
         sums = [out[0] for ln, out in ops if ln.startswith('fsum') and out]
-        if cid.startswith('patterns') and len(sums) == 2 and sums[0] != sums[1]:
+        if (cid.startswith('patterns') or cid.startswith('np')) and len(sums) == 2 and sums[0] != sums[1]:
             fbad += 1; rep.violation('oracle', 'saving the reloaded pattern file again is not byte-identical', script=lines, signature='pattern-bytes')
-    rep.coverage['file_patterns'] = dict(bytes=256, ints=65536, floats=len(float_patterns(rng)), header_word_cases=len(fcases) - 2, oracle_failures=fbad, disagreements=fnd)
+    rep.coverage['file_patterns'] = dict(bytes=256, ints=65536, floats=len(float_patterns(rng)), header_word_cases=7, named_parameter_files=k, oracle_failures=fbad, disagreements=fnd)
     cases = [('sweep1', ['h2sweep 1']), ('sweep2', ['h2sweep 2'])]
     # boundary-dense 4-byte and long assemblies (the header's 4-, 44- and 270-byte reads)
     pats = []
